@@ -486,7 +486,7 @@ pub fn run_c27(ctx: &Ctx, rep: &mut Report) {
 // =====================================================================
 
 pub fn run_c28(ctx: &Ctx, rep: &mut Report) {
-    let n = if ctx.is_miri() { ctx.cases(1, 32) } else { ctx.cases(3_000, 100_000) };
+    let n = if ctx.is_miri() { ctx.cases(1, 32) } else { ctx.cases(3_000, 30_000) };
     let (_reference, cat) = rrl_zone();
     let cat = Arc::new(cat);
     let name = RName::simple("www.rrl.test.");
